@@ -233,6 +233,21 @@ func show(in []byte) string {
 }
 
 func gap(tag string, max int) []byte {
+	if long := rt.Param("long", 0); long > 0 && tag == "gap" {
+		// a long run of concrete whitespace (spaces, every seventh a tab) with
+		// one symbolic byte in the middle
+		g := make([]byte, long)
+		for i := range g {
+			g[i] = ' '
+			if i%7 == 3 {
+				g[i] = '\t'
+			}
+		}
+		g[long/2] = rt.Byte("in")
+		rt.Assume(g[long/2] != '\r')
+		rt.Cover("long whitespace run")
+		return g
+	}
 	n := rt.Choose(tag+".len", max+1)
 	g := make([]byte, n)
 	for i := range g {
